@@ -680,7 +680,16 @@ pub trait IdmServerTransaction<'a> {
 
         if let Some(oauth2_session) = oauth2_session {
             // We have the oauth2 session, lets check it.
-            let oauth2_session_valid = !matches!(oauth2_session.state, SessionState::RevokedAt(_));
+            // The session plugin only revokes an expired session on the next write to the
+            // account, so an expired session must be refused here just like a revoked one.
+            let ct_odt = time::OffsetDateTime::UNIX_EPOCH + ct;
+            let session_state_live = |state: &SessionState| match state {
+                SessionState::RevokedAt(_) => false,
+                SessionState::ExpiresAt(exp) => *exp > ct_odt,
+                SessionState::NeverExpires => true,
+            };
+
+            let oauth2_session_valid = session_state_live(&oauth2_session.state);
 
             if !oauth2_session_valid {
                 security_info!("The oauth2 session associated to this token is revoked.");
@@ -694,8 +703,7 @@ pub trait IdmServerTransaction<'a> {
                     .and_then(|sessions| sessions.get(&parent_session_id));
 
                 if let Some(uat_session) = uat_session {
-                    let parent_session_valid =
-                        !matches!(uat_session.state, SessionState::RevokedAt(_));
+                    let parent_session_valid = session_state_live(&uat_session.state);
                     if parent_session_valid {
                         security_info!(
                             "A valid parent and oauth2 session value exists for this token"
